@@ -83,3 +83,14 @@ type Membership struct {
 	Team       sql.NullInt64 `gomacro-sql-foreign:"Product" gomacro-sql-on-delete:"SET NULL"`
 	Role       string
 }
+
+// Marker is a table made of its id only.
+type Marker struct {
+	Id int64
+}
+
+// Badge has a single column next to its id.
+type Badge struct {
+	Id    int64
+	Label string
+}
